@@ -211,7 +211,72 @@ func (o *ownCtx) ownedVar(f *Fn, v *types.Var) (bool, string) {
 	}
 	// parameters, receivers
 	for g := f; g != nil; g = g.Parent {
-		if paramIndex(g, v) >= 0 {
+		if idx := paramIndex(g, v); idx >= 0 {
+			// a slice parameter of an unexported declared function is as owned as what every call site in the package passes
+			if g.Lit == nil && g.Decl != nil && !ast.IsExported(g.Decl.Name.Name) && isSliceType(v.Type()) && !o.strict {
+				if gobj, _ := g.Pkg.TypesInfo.Defs[g.Decl.Name].(*types.Func); gobj != nil {
+					o.memoVar[v] = 1
+					sites, bad := 0, ""
+					for _, c := range o.p.FnList {
+						if c.Pkg != g.Pkg || c.Body() == nil {
+							continue
+						}
+						var calls []*ast.CallExpr
+						inspectShallow(c.Body(), func(x ast.Node) bool {
+							if call, ok := x.(*ast.CallExpr); ok {
+								calls = append(calls, call)
+							}
+							return true
+						})
+						for _, call := range calls {
+							if o.p.Callee(c.Pkg, call) != gobj || idx >= len(call.Args) {
+								continue
+							}
+							sites++
+							if okE, w := o.owned(c, call.Args[idx]); !okE && bad == "" {
+								bad = "call site " + o.p.Pos(call) + " passes " + types.ExprString(call.Args[idx]) + ", which is not owned: " + w
+							}
+						}
+					}
+					// a method value or function value use would escape this census
+					escapes := false
+					for _, c := range o.p.FnList {
+						if c.Pkg != g.Pkg || c.Body() == nil {
+							continue
+						}
+						inspectParents(c.Body(), func(x ast.Node, parents []ast.Node) bool {
+							id, ok := x.(*ast.Ident)
+							if !ok || c.Pkg.TypesInfo.Uses[id] != types.Object(gobj) {
+								return true
+							}
+							// the identifier must be the Fun (or the Sel of the Fun) of a call
+							for i := len(parents) - 1; i >= 0; i-- {
+								switch par := parents[i].(type) {
+								case *ast.SelectorExpr:
+									continue
+								case *ast.CallExpr:
+									if f2 := ast.Unparen(par.Fun); f2 == ast.Expr(id) {
+										return true
+									} else if se, ok := f2.(*ast.SelectorExpr); ok && se.Sel == id {
+										return true
+									}
+								}
+								break
+							}
+							escapes = true
+							return true
+						})
+					}
+					if sites > 0 && bad == "" && !escapes {
+						o.memoVar[v], o.whyVar[v] = 2, fmt.Sprintf("parameter %s: every one of the %d call sites of %s passes owned memory", v.Name(), sites, g.Key())
+						return true, o.whyVar[v]
+					}
+					if bad != "" {
+						o.memoVar[v], o.whyVar[v] = 3, "parameter "+v.Name()+": "+bad
+						return false, o.whyVar[v]
+					}
+				}
+			}
 			o.memoVar[v], o.whyVar[v] = 3, "parameter "+v.Name()+" (caller's memory)"
 			return false, o.whyVar[v]
 		}
